@@ -711,6 +711,8 @@ from mlmverif.selfcheck import B, OK  # noqa: E402
 
 _T = 'chainables/transform.py'
 VARIANTS = [
+    OK('outputs-view-through-a-local', 'chainables/tree_fns.py',
+       "    result = tree.TreeMapView(inputs)\n", "    view = tree.TreeMapView(inputs)\n    result = view\n"),
     OK('put-through-a-local', 'utils/iter_utils.py',
        "          self._put_nowait(value)\n", "          item = value\n          self._put_nowait(item)\n"),
     OK('merged-state-fetched-then-none-tested', 'chainables/transform.py',
